@@ -814,3 +814,207 @@ Proof.
 Qed.
 
 End Zp.
+
+(* ------------------------------------------------------------------ statements about [pcoh] itself *)
+Definition validb (cells : list cell) : bool :=
+  forallb (fun k => let c := nth k cells (mkcell 0 [] 0) in
+                    forallb (fun f => (f <? k)%nat && (S (dim_of cells f) =? c_dim c)%nat) (c_faces c) &&
+                    (negb (c_dim c =? 1)%nat || (length (c_faces c) =? 2)%nat)) (seq 0 (length cells)).
+Lemma validb_sound cells : validb cells = true -> valid cells.
+Proof.
+  unfold validb, valid. rewrite forallb_forall. intros H k Hk.
+  specialize (H k ltac:(apply in_seq; lia)). cbv zeta in H. apply andb_true_iff in H. destruct H as [H1 H2].
+  split.
+  - intros f Hf. rewrite forallb_forall in H1. specialize (H1 f Hf). apply andb_true_iff in H1. destruct H1 as [A B].
+    apply Nat.ltb_lt in A. apply Nat.eqb_eq in B. split; assumption.
+  - intros Hd. unfold cell_at in *. rewrite Hd in H2. cbn in H2. apply Nat.eqb_eq in H2. exact H2.
+Qed.
+
+Section Pcoh.
+Variable p : Z.
+Hypothesis Hp : prime p.
+Hypothesis Hp16 : p < 65536.
+Variable cells : list cell.
+Hypothesis Hv : valid cells.
+Variable flag : bool.
+Variable m : Z.
+
+Lemma pcoh_cases : pcoh (zp_ops p) cells flag m = [] \/
+  pcoh (zp_ops p) cells flag m = final_pairs p (run (zp_ops p) cells (dim_max_of cells flag) m cells).
+Proof. unfold pcoh. destruct (dim_max_of cells flag <=? 0); [left|right]; reflexivity. Qed.
+
+Lemma run_all_inv : Inv p cells (run (zp_ops p) cells (dim_max_of cells flag) m cells) (length cells).
+Proof. apply (run_inv p Hp Hp16 cells (dim_max_of cells flag) m Hv cells []). symmetry. apply app_nil_r. Qed.
+
+Theorem pcoh_paired_once : NoDup (pair_keys (pcoh (zp_ops p) cells flag m)).
+Proof.
+  destruct pcoh_cases as [-> | ->]; [constructor|].
+  apply (final_once p cells _ (length cells)). exact run_all_inv.
+Qed.
+
+Theorem pcoh_order : forall b d ch, In (b, Some d, ch) (pcoh (zp_ops p) cells flag m) ->
+  (b < d)%nat /\ (d < length cells)%nat /\ dim_of cells d = S (dim_of cells b) /\ ch = p.
+Proof.
+  intros b d ch H. destruct pcoh_cases as [E|E]; rewrite E in H; [destruct H|].
+  destruct (final_order p cells _ (length cells) run_all_inv _ H) as [(A & B & C) D]. cbn in *. repeat split; assumption.
+Qed.
+
+Theorem pcoh_essential : forall b ch, In (b, None, ch) (pcoh (zp_ops p) cells flag m) -> (b < length cells)%nat /\ ch = p.
+Proof.
+  intros b ch H. destruct pcoh_cases as [E|E]; rewrite E in H; [destruct H|].
+  destruct (final_order p cells _ (length cells) run_all_inv _ H) as [A D]. cbn in *. split; assumption.
+Qed.
+
+(* the cocycle invariant holds after every prefix of the filtration *)
+Theorem pcoh_cocycles : forall pre suf dim_max, cells = pre ++ suf ->
+  let s := run (zp_ops p) cells dim_max m pre in
+  forall t j, (t < length pre)%nat ->
+    vget (bann (zp_ops p) (s_ann s) (dim_of cells t) (c_faces (nth t cells (mkcell 0 [] 0))) 0 []) j = 0.
+Proof.
+  intros pre suf dim_max H s t j Ht.
+  apply (cocycle_inv p Hp cells s (length pre)); [|exact Ht].
+  apply (run_inv p Hp Hp16 cells dim_max m Hv pre suf H).
+Qed.
+
+Theorem pcoh_support : forall pre suf dim_max, cells = pre ++ suf ->
+  let s := run (zp_ops p) cells dim_max m pre in
+  forall t j, vget (nth t (s_ann s) []) j <> 0 ->
+    In j (map fst (s_rows s)) /\ dim_of cells j = dim_of cells t /\ 0 < vget (nth t (s_ann s) []) j < p.
+Proof.
+  intros pre suf dim_max H s t j Hne.
+  apply (support_inv p cells s (length pre)); [|exact Hne].
+  apply (run_inv p Hp Hp16 cells dim_max m Hv pre suf H).
+Qed.
+End Pcoh.
+
+(* ------------------------------------------------------------------ the read-outs are functions of the multiset of pairs *)
+Lemma filter_length_perm {A} (f : A -> bool) (l l' : list A) : Permutation l l' -> length (filter f l) = length (filter f l').
+Proof.
+  induction 1; cbn [filter].
+  - reflexivity.
+  - destruct (f x); cbn [length]; congruence.
+  - destruct (f x), (f y); reflexivity.
+  - congruence.
+Qed.
+Lemma filter_map_length {A B} (h : A -> B) (g : B -> bool) (l : list A) :
+  length (filter g (map h l)) = length (filter (fun x => g (h x)) l).
+Proof. induction l as [|x l IH]; cbn [map filter]; [reflexivity|]. destruct (g (h x)); cbn [length]; congruence. Qed.
+
+Theorem count_dim_perm cells sel ps ps' d : Permutation ps ps' -> count_dim cells sel ps d = count_dim cells sel ps' d.
+Proof. intros H. unfold count_dim. f_equal. apply filter_length_perm. exact H. Qed.
+
+Theorem betti_numbers_perm cells dim_max ps ps' : Permutation ps ps' -> betti_numbers cells dim_max ps = betti_numbers cells dim_max ps'.
+Proof. intros H. unfold betti_numbers. apply map_ext. intros d. apply count_dim_perm. exact H. Qed.
+
+Theorem persistent_betti_numbers_perm cells dim_max ps ps' from to : Permutation ps ps' ->
+  persistent_betti_numbers cells dim_max ps from to = persistent_betti_numbers cells dim_max ps' from to.
+Proof. intros H. unfold persistent_betti_numbers. apply map_ext. intros d. apply count_dim_perm. exact H. Qed.
+
+Theorem betti_numbers_nth cells dim_max ps d : (Z.of_nat d < dim_max) ->
+  nth d (betti_numbers cells dim_max ps) 0 = betti_number cells ps d.
+Proof.
+  intros Hd. unfold betti_numbers.
+  assert (Hlt : (d < Z.to_nat (Z.max dim_max 0))%nat) by lia.
+  rewrite (nth_indep _ 0 (betti_number cells ps 0%nat)) by (rewrite map_length, seq_length; exact Hlt).
+  rewrite map_nth. rewrite seq_nth by exact Hlt. reflexivity.
+Qed.
+
+Theorem persistent_betti_numbers_nth cells dim_max ps from to d : (Z.of_nat d < dim_max) ->
+  nth d (persistent_betti_numbers cells dim_max ps from to) 0 = persistent_betti_number cells ps d from to.
+Proof.
+  intros Hd. unfold persistent_betti_numbers.
+  assert (Hlt : (d < Z.to_nat (Z.max dim_max 0))%nat) by lia.
+  rewrite (nth_indep _ 0 (persistent_betti_number cells ps 0%nat from to)) by (rewrite map_length, seq_length; exact Hlt).
+  rewrite (map_nth (fun d => persistent_betti_number cells ps d from to)). rewrite seq_nth by exact Hlt. reflexivity.
+Qed.
+
+Lemma filter_filter {A} (f g : A -> bool) (l : list A) : filter g (filter f l) = filter (fun x => f x && g x) l.
+Proof. induction l as [|x l IH]; cbn [filter]; [reflexivity|]. destruct (f x); cbn [filter andb]; [destruct (g x)|]; congruence. Qed.
+
+(* Betti numbers = intervals of that dimension that never die; persistent Betti numbers = intervals born by [from] and alive after [to] *)
+Theorem betti_from_intervals cells ps d :
+  betti_number cells ps d =
+  Z.of_nat (length (filter (fun iv => match snd iv with None => true | Some _ => false end) (intervals_in_dimension cells ps d))).
+Proof.
+  unfold betti_number, count_dim, intervals_in_dimension. f_equal. rewrite filter_map_length, filter_filter. f_equal.
+  apply filter_ext. intros x. unfold is_inf. cbn [snd]. destruct (p_death x); cbn [option_map]; destruct (dim_of cells (p_birth x) =? d)%nat; reflexivity.
+Qed.
+
+Theorem persistent_betti_from_intervals cells ps d from to :
+  persistent_betti_number cells ps d from to =
+  Z.of_nat (length (filter (fun iv => (fst iv <=? from) && match snd iv with None => true | Some e => to <? e end)
+                           (intervals_in_dimension cells ps d))).
+Proof.
+  unfold persistent_betti_number, count_dim, intervals_in_dimension. f_equal. rewrite filter_map_length, filter_filter. f_equal.
+  apply filter_ext. intros x. unfold covers. cbn [fst snd]. destruct (p_death x); cbn [option_map]; apply andb_comm.
+Qed.
+
+(* with [from] beyond every birth and [to] beyond every death the persistent Betti numbers are the Betti numbers *)
+Theorem persistent_betti_at_infinity cells ps d from to :
+  (forall x, In x ps -> val_of cells (p_birth x) <= from) ->
+  (forall x e, In x ps -> p_death x = Some e -> val_of cells e <= to) ->
+  persistent_betti_number cells ps d from to = betti_number cells ps d.
+Proof.
+  intros Hb Hd. unfold persistent_betti_number, betti_number, count_dim. f_equal. f_equal.
+  apply filter_ext_in. intros x Hx. f_equal. unfold covers, is_inf.
+  specialize (Hb x Hx). destruct (p_death x) as [e|] eqn:E.
+  - specialize (Hd x e Hx E). destruct (Z.leb_spec (val_of cells (p_birth x)) from); destruct (Z.ltb_spec to (val_of cells e)); cbn; lia.
+  - destruct (Z.leb_spec (val_of cells (p_birth x)) from); cbn; lia.
+Qed.
+
+Theorem intervals_in_dimension_spec cells ps d b e :
+  In (b, e) (intervals_in_dimension cells ps d) <->
+  exists x, In x ps /\ dim_of cells (p_birth x) = d /\ b = val_of cells (p_birth x) /\ e = option_map (val_of cells) (p_death x).
+Proof.
+  unfold intervals_in_dimension. rewrite in_map_iff. split.
+  - intros [x [E Hx]]. apply filter_In in Hx. destruct Hx as [Hx Hd]. apply Nat.eqb_eq in Hd. inversion E; subst.
+    exists x. repeat split; assumption.
+  - intros [x (Hx & Hd & -> & ->)]. exists x. split; [reflexivity|]. apply filter_In. split; [exact Hx|]. apply Nat.eqb_eq. exact Hd.
+Qed.
+
+(* ------------------------------------------------------------------ the oracle is canonical *)
+Theorem oracle_pairs_canonical p cells l R Fm : prime p -> oracle_pairs p cells = Some l ->
+  check_any p (length (bmatrix cells)) (bmatrix cells) R Fm = true ->
+  pairs_of_lows (lows p (length (bmatrix cells)) R) = l.
+Proof.
+  intros Hp H Hc. unfold oracle_pairs in H. destruct (certified_lows p (bmatrix cells)) as [l0|] eqn:E; [|discriminate].
+  inversion H; subst. f_equal. apply (certified_lows_canonical_any p (bmatrix cells) R Fm l0 Hp E Hc).
+Qed.
+
+(* ------------------------------------------------------------------ non-vacuity: concrete instances *)
+(* the 6-vertex projective plane, simplices by dimension, value = dimension *)
+Definition rp2_tris : list simplex :=
+  [[1;2;4];[1;2;6];[1;3;4];[1;3;5];[1;5;6];[2;3;5];[2;3;6];[2;4;5];[3;4;6];[4;5;6]].
+Definition rp2_order : list (simplex * Z) :=
+  map (fun v => ([v], 0)) [1;2;3;4;5;6] ++
+  map (fun e => (e, 1)) [[1;2];[1;3];[1;4];[1;5];[1;6];[2;3];[2;4];[2;5];[2;6];[3;4];[3;5];[3;6];[4;5];[4;6];[5;6]] ++
+  map (fun t => (t, 2)) rp2_tris.
+Definition rp2_cells : list cell := match cells_of rp2_order with Some c => c | None => [] end.
+
+Example rp2_is_valid : valid rp2_cells.
+Proof. apply validb_sound. vm_compute. reflexivity. Qed.
+Example rp2_size : length rp2_cells = 31%nat.
+Proof. vm_compute. reflexivity. Qed.
+
+(* over Z_2 the projective plane has H1 and H2, over Z_3 it has neither: the fields disagree *)
+Example rp2_betti_Z2 : betti_numbers rp2_cells 3 (pcoh (zp_ops 2) rp2_cells true 0) = [1; 1; 1].
+Proof. vm_compute. reflexivity. Qed.
+Example rp2_betti_Z3 : betti_numbers rp2_cells 3 (pcoh (zp_ops 3) rp2_cells true 0) = [1; 0; 0].
+Proof. vm_compute. reflexivity. Qed.
+(* the duality clause on this instance, both fields, both values of persistence_dim_max, two minimal lengths *)
+Example rp2_duality :
+  forallb (fun p => forallb (fun flag => forallb (fun m =>
+    match barcode p rp2_cells (dim_max_of rp2_cells flag) m with
+    | Some bc => msame (value_view rp2_cells 1 (pcoh (zp_ops p) rp2_cells flag m)) bc
+    | None => false end) [0; 1; 5]) [true; false]) [2; 3; 5] = true.
+Proof. vm_compute. reflexivity. Qed.
+(* multi-field [2,3]: the products attached to the intervals *)
+Example rp2_multifield :
+  forallb (fun q =>
+    match barcode q rp2_cells 3 0 with
+    | Some bc => msame (value_view rp2_cells q (pcoh (mf_ops [2; 3]) rp2_cells true 0)) bc
+    | None => false end) [2; 3] = true.
+Proof. vm_compute. reflexivity. Qed.
+(* the hypotheses of the theorems are satisfiable with live classes present: after the edges, before the triangles *)
+Example rp2_live_rows : length (s_rows (run (zp_ops 3) rp2_cells 3 0 (firstn 21 rp2_cells))) = 10%nat.
+Proof. vm_compute. reflexivity. Qed.
